@@ -32,6 +32,7 @@ func main() {
 	}
 	root := os.Args[1]
 	n := 0
+	closes := 0
 	for _, dir := range []string{"cmd/gxz", "internal/gflag", "internal/xlog"} {
 		ents, err := os.ReadDir(filepath.Join(root, dir))
 		if err != nil {
@@ -58,6 +59,24 @@ func main() {
 					imp.Name = ast.NewIdent(r[0])
 					changed = true
 				}
+			}
+			// close(quit) -> signal.CloseQuit(quit) in files that import os/signal
+			hasSignal := false
+			for _, imp := range f.Imports {
+				if imp.Path.Value == strconv.Quote("verif/sim/simsignal") {
+					hasSignal = true
+				}
+			}
+			if hasSignal {
+				ast.Inspect(f, func(nd ast.Node) bool {
+					if call, ok := nd.(*ast.CallExpr); ok {
+						if id, ok := call.Fun.(*ast.Ident); ok && id.Name == "close" && len(call.Args) == 1 {
+							call.Fun = &ast.SelectorExpr{X: ast.NewIdent("signal"), Sel: ast.NewIdent("CloseQuit")}
+							closes++
+						}
+					}
+					return true
+				})
 			}
 			if !changed {
 				continue
@@ -96,7 +115,7 @@ func main() {
 		fmt.Fprintln(os.Stderr, err)
 		os.Exit(2)
 	}
-	fmt.Printf("rewrite: %d files redirected\n", n)
+	fmt.Printf("rewrite: %d files redirected, %d close(quit) calls routed through the simulator\n", n, closes)
 	if n < 3 {
 		fmt.Fprintln(os.Stderr, "rewrite: expected at least cmd/gxz/file.go, main.go, gflag/flag.go and xlog/xlog.go")
 		os.Exit(2)
